@@ -202,6 +202,9 @@ def judge(cfg, events, results, props=None):
                     dest_state = _classify(regions, virt.pos["X"], virt.pos["Y"])
             if dest_state == "edge":
                 return out + [("SKIP", i, "destination within margin of a border")]
+            fae = bool(cur.get("first_after_enable")) and is_move
+            if is_move:
+                cur["first_after_enable"] = False
             if enabled and dest_state == "in":
                 touched = True
                 if not episode:
@@ -222,6 +225,8 @@ def judge(cfg, events, results, props=None):
                             episode = False
                         enabled = False
                     elif act == "enable_exclusion":
+                        if not enabled:
+                            cur["first_after_enable"] = True
                         enabled = True
 
         # ---- execute what reaches the printer
@@ -252,6 +257,14 @@ def judge(cfg, events, results, props=None):
                 if None not in (phys.pos["X"], phys.pos["Y"]) and \
                         any(in_region(s, phys.pos["X"], phys.pos["Y"], 1e-3) for s in regions):
                     viol("C01", i, "forwarded %r moves the tool into a region at %r" % (o, phys.xyz()))
+            if (not was_episode) and episode and ev[0] == "g" and "Z" in info["moved"]:
+                # the command that opens the episode counts: its destination (for a move without X/Y:
+                # the place where the tool stands) lies inside a region
+                viol("C01", i, "forwarded %r moves Z although the command opens an episode at %r"
+                     % (o, (virt.pos["X"], virt.pos["Y"])))
+                if fae:
+                    viol("C14", i, "first move after re-enabling: %r executed although the tool stands inside a "
+                                   "region at %r" % (o, (virt.pos["X"], virt.pos["Y"])))
             if was_episode and episode:
                 if info["moved"]:
                     viol("C01", i, "forwarded %r moves %s inside an episode" % (o, sorted(info["moved"])))
